@@ -210,7 +210,7 @@ harness!(can_cast_to_reference, 2, {
 // ---------------------------------------------------------------------------------------------
 // numeric x numeric: all 13 operators
 
-//# harness binary_integer_integer tier=quick label=complete props=C12,C06 fn=rusty_linter/src/core/casting.rs::cast_binary_op_q timeout=600
+//# harness binary_integer_integer tier=quick tier.C06=thorough label=complete props=C12,C06 fn=rusty_linter/src/core/casting.rs::cast_binary_op_q timeout=600
 harness!(binary_integer_integer, 1, {
     let a = vs::i32();
     vs::assume(a >= -32768 && a <= 32767);
@@ -254,7 +254,7 @@ harness!(binary_integer_integer, 1, {
     reach!(out == Out::OtherError);
 });
 
-//# harness logical_integer_integer tier=quick label=complete props=C12,C06 fn=rusty_linter/src/core/casting.rs::cast_binary_op_q timeout=600
+//# harness logical_integer_integer tier=quick tier.C06=thorough label=complete props=C12,C06 fn=rusty_linter/src/core/casting.rs::cast_binary_op_q timeout=600
 harness!(logical_integer_integer, 18, {
     let a = vs::i32();
     vs::assume(a >= -32768 && a <= 32767);
@@ -280,7 +280,7 @@ harness!(finding_f5_divide_integer_integer, 1, {
     check(Q::PercentInteger, Q::PercentInteger, Operator::Divide, out, false);
 });
 
-//# harness binary_integer_long tier=quick label=complete props=C12,C06 fn=rusty_linter/src/core/casting.rs::cast_binary_op_q timeout=600
+//# harness binary_integer_long tier=quick tier.C06=thorough label=complete props=C12,C06 fn=rusty_linter/src/core/casting.rs::cast_binary_op_q timeout=600
 harness!(binary_integer_long, 1, {
     let a = vs::i32();
     vs::assume(a >= -32768 && a <= 32767);
@@ -324,7 +324,7 @@ harness!(binary_integer_long, 1, {
     reach!(out == Out::OtherError);
 });
 
-//# harness logical_integer_long tier=quick label=complete props=C12,C06 fn=rusty_linter/src/core/casting.rs::cast_binary_op_q timeout=600
+//# harness logical_integer_long tier=quick tier.C06=thorough label=complete props=C12,C06 fn=rusty_linter/src/core/casting.rs::cast_binary_op_q timeout=600
 harness!(logical_integer_long, 18, {
     let a = vs::i32();
     vs::assume(a >= -32768 && a <= 32767);
@@ -350,7 +350,7 @@ harness!(finding_f5_divide_integer_long, 1, {
     check(Q::PercentInteger, Q::AmpersandLong, Operator::Divide, out, false);
 });
 
-//# harness binary_integer_single tier=quick label=complete props=C12,C06 fn=rusty_linter/src/core/casting.rs::cast_binary_op_q timeout=600
+//# harness binary_integer_single tier=quick tier.C06=thorough label=complete props=C12,C06 fn=rusty_linter/src/core/casting.rs::cast_binary_op_q timeout=600
 harness!(binary_integer_single, 1, {
     let a = vs::i32();
     vs::assume(a >= -32768 && a <= 32767);
@@ -397,7 +397,7 @@ harness!(binary_integer_single, 1, {
     reach!(out == Out::OtherError);
 });
 
-//# harness logical_integer_single tier=quick label=complete props=C12,C06 fn=rusty_linter/src/core/casting.rs::cast_binary_op_q timeout=600
+//# harness logical_integer_single tier=quick tier.C06=thorough label=complete props=C12,C06 fn=rusty_linter/src/core/casting.rs::cast_binary_op_q timeout=600
 harness!(logical_integer_single, 18, {
     let a = vs::i32();
     vs::assume(a >= -32768 && a <= 32767);
@@ -423,7 +423,7 @@ harness!(finding_f5_divide_integer_single, 1, {
     check(Q::PercentInteger, Q::BangSingle, Operator::Divide, out, false);
 });
 
-//# harness binary_integer_double tier=quick label=complete props=C12,C06 fn=rusty_linter/src/core/casting.rs::cast_binary_op_q timeout=600
+//# harness binary_integer_double tier=quick tier.C06=thorough label=complete props=C12,C06 fn=rusty_linter/src/core/casting.rs::cast_binary_op_q timeout=600
 harness!(binary_integer_double, 1, {
     let a = vs::i32();
     vs::assume(a >= -32768 && a <= 32767);
@@ -470,7 +470,7 @@ harness!(binary_integer_double, 1, {
     reach!(out == Out::OtherError);
 });
 
-//# harness logical_integer_double tier=quick label=complete props=C12,C06 fn=rusty_linter/src/core/casting.rs::cast_binary_op_q timeout=600
+//# harness logical_integer_double tier=quick tier.C06=thorough label=complete props=C12,C06 fn=rusty_linter/src/core/casting.rs::cast_binary_op_q timeout=600
 harness!(logical_integer_double, 18, {
     let a = vs::i32();
     vs::assume(a >= -32768 && a <= 32767);
@@ -496,7 +496,7 @@ harness!(finding_f5_divide_integer_double, 1, {
     check(Q::PercentInteger, Q::HashDouble, Operator::Divide, out, false);
 });
 
-//# harness binary_long_integer tier=quick label=complete props=C12,C06 fn=rusty_linter/src/core/casting.rs::cast_binary_op_q timeout=600
+//# harness binary_long_integer tier=quick tier.C06=thorough label=complete props=C12,C06 fn=rusty_linter/src/core/casting.rs::cast_binary_op_q timeout=600
 harness!(binary_long_integer, 1, {
     let a = vs::i64();
     vs::assume(a >= -2147483648 && a <= 2147483647);
@@ -540,7 +540,7 @@ harness!(binary_long_integer, 1, {
     reach!(out == Out::OtherError);
 });
 
-//# harness logical_long_integer tier=quick label=complete props=C12,C06 fn=rusty_linter/src/core/casting.rs::cast_binary_op_q timeout=600
+//# harness logical_long_integer tier=quick tier.C06=thorough label=complete props=C12,C06 fn=rusty_linter/src/core/casting.rs::cast_binary_op_q timeout=600
 harness!(logical_long_integer, 18, {
     let a = vs::i64();
     vs::assume(a >= -2147483648 && a <= 2147483647);
@@ -566,7 +566,7 @@ harness!(finding_f5_divide_long_integer, 1, {
     check(Q::AmpersandLong, Q::PercentInteger, Operator::Divide, out, false);
 });
 
-//# harness binary_long_long tier=quick label=complete props=C12,C06 fn=rusty_linter/src/core/casting.rs::cast_binary_op_q timeout=600
+//# harness binary_long_long tier=quick tier.C06=thorough label=complete props=C12,C06 fn=rusty_linter/src/core/casting.rs::cast_binary_op_q timeout=600
 harness!(binary_long_long, 1, {
     let a = vs::i64();
     vs::assume(a >= -2147483648 && a <= 2147483647);
@@ -610,7 +610,7 @@ harness!(binary_long_long, 1, {
     reach!(out == Out::OtherError);
 });
 
-//# harness logical_long_long tier=quick label=complete props=C12,C06 fn=rusty_linter/src/core/casting.rs::cast_binary_op_q timeout=600
+//# harness logical_long_long tier=quick tier.C06=thorough label=complete props=C12,C06 fn=rusty_linter/src/core/casting.rs::cast_binary_op_q timeout=600
 harness!(logical_long_long, 18, {
     let a = vs::i64();
     vs::assume(a >= -2147483648 && a <= 2147483647);
@@ -636,7 +636,7 @@ harness!(finding_f5_divide_long_long, 1, {
     check(Q::AmpersandLong, Q::AmpersandLong, Operator::Divide, out, false);
 });
 
-//# harness binary_long_single tier=quick label=complete props=C12,C06 fn=rusty_linter/src/core/casting.rs::cast_binary_op_q timeout=600
+//# harness binary_long_single tier=quick tier.C06=thorough label=complete props=C12,C06 fn=rusty_linter/src/core/casting.rs::cast_binary_op_q timeout=600
 harness!(binary_long_single, 1, {
     let a = vs::i64();
     vs::assume(a >= -2147483648 && a <= 2147483647);
@@ -683,7 +683,7 @@ harness!(binary_long_single, 1, {
     reach!(out == Out::OtherError);
 });
 
-//# harness logical_long_single tier=quick label=complete props=C12,C06 fn=rusty_linter/src/core/casting.rs::cast_binary_op_q timeout=600
+//# harness logical_long_single tier=quick tier.C06=thorough label=complete props=C12,C06 fn=rusty_linter/src/core/casting.rs::cast_binary_op_q timeout=600
 harness!(logical_long_single, 18, {
     let a = vs::i64();
     vs::assume(a >= -2147483648 && a <= 2147483647);
@@ -709,7 +709,7 @@ harness!(finding_f5_divide_long_single, 1, {
     check(Q::AmpersandLong, Q::BangSingle, Operator::Divide, out, false);
 });
 
-//# harness binary_long_double tier=quick label=complete props=C12,C06 fn=rusty_linter/src/core/casting.rs::cast_binary_op_q timeout=600
+//# harness binary_long_double tier=quick tier.C06=thorough label=complete props=C12,C06 fn=rusty_linter/src/core/casting.rs::cast_binary_op_q timeout=600
 harness!(binary_long_double, 1, {
     let a = vs::i64();
     vs::assume(a >= -2147483648 && a <= 2147483647);
@@ -756,7 +756,7 @@ harness!(binary_long_double, 1, {
     reach!(out == Out::OtherError);
 });
 
-//# harness logical_long_double tier=quick label=complete props=C12,C06 fn=rusty_linter/src/core/casting.rs::cast_binary_op_q timeout=600
+//# harness logical_long_double tier=quick tier.C06=thorough label=complete props=C12,C06 fn=rusty_linter/src/core/casting.rs::cast_binary_op_q timeout=600
 harness!(logical_long_double, 18, {
     let a = vs::i64();
     vs::assume(a >= -2147483648 && a <= 2147483647);
@@ -782,7 +782,7 @@ harness!(finding_f5_divide_long_double, 1, {
     check(Q::AmpersandLong, Q::HashDouble, Operator::Divide, out, false);
 });
 
-//# harness binary_single_integer tier=quick label=complete props=C12,C06 fn=rusty_linter/src/core/casting.rs::cast_binary_op_q timeout=600
+//# harness binary_single_integer tier=quick tier.C06=thorough label=complete props=C12,C06 fn=rusty_linter/src/core/casting.rs::cast_binary_op_q timeout=600
 harness!(binary_single_integer, 1, {
     let a = vs::f32();
     vs::assume(a.is_finite());
@@ -829,7 +829,7 @@ harness!(binary_single_integer, 1, {
     reach!(out == Out::OtherError);
 });
 
-//# harness logical_single_integer tier=quick label=complete props=C12,C06 fn=rusty_linter/src/core/casting.rs::cast_binary_op_q timeout=600
+//# harness logical_single_integer tier=quick tier.C06=thorough label=complete props=C12,C06 fn=rusty_linter/src/core/casting.rs::cast_binary_op_q timeout=600
 harness!(logical_single_integer, 18, {
     let a = vs::f32();
     vs::assume(a.is_finite());
@@ -855,7 +855,7 @@ harness!(finding_f5_divide_single_integer, 1, {
     check(Q::BangSingle, Q::PercentInteger, Operator::Divide, out, false);
 });
 
-//# harness binary_single_long tier=quick label=complete props=C12,C06 fn=rusty_linter/src/core/casting.rs::cast_binary_op_q timeout=600
+//# harness binary_single_long tier=quick tier.C06=thorough label=complete props=C12,C06 fn=rusty_linter/src/core/casting.rs::cast_binary_op_q timeout=600
 harness!(binary_single_long, 1, {
     let a = vs::f32();
     vs::assume(a.is_finite());
@@ -902,7 +902,7 @@ harness!(binary_single_long, 1, {
     reach!(out == Out::OtherError);
 });
 
-//# harness logical_single_long tier=quick label=complete props=C12,C06 fn=rusty_linter/src/core/casting.rs::cast_binary_op_q timeout=600
+//# harness logical_single_long tier=quick tier.C06=thorough label=complete props=C12,C06 fn=rusty_linter/src/core/casting.rs::cast_binary_op_q timeout=600
 harness!(logical_single_long, 18, {
     let a = vs::f32();
     vs::assume(a.is_finite());
@@ -928,7 +928,7 @@ harness!(finding_f5_divide_single_long, 1, {
     check(Q::BangSingle, Q::AmpersandLong, Operator::Divide, out, false);
 });
 
-//# harness binary_single_single tier=quick label=complete props=C12,C06 fn=rusty_linter/src/core/casting.rs::cast_binary_op_q timeout=600
+//# harness binary_single_single tier=quick tier.C06=thorough label=complete props=C12,C06 fn=rusty_linter/src/core/casting.rs::cast_binary_op_q timeout=600
 harness!(binary_single_single, 1, {
     let a = vs::f32();
     vs::assume(a.is_finite());
@@ -976,7 +976,7 @@ harness!(binary_single_single, 1, {
     reach!(out == Out::OtherError);
 });
 
-//# harness logical_single_single tier=quick label=complete props=C12,C06 fn=rusty_linter/src/core/casting.rs::cast_binary_op_q timeout=600
+//# harness logical_single_single tier=quick tier.C06=thorough label=complete props=C12,C06 fn=rusty_linter/src/core/casting.rs::cast_binary_op_q timeout=600
 harness!(logical_single_single, 18, {
     let a = vs::f32();
     vs::assume(a.is_finite());
@@ -1002,7 +1002,7 @@ harness!(finding_f5_divide_single_single, 1, {
     check(Q::BangSingle, Q::BangSingle, Operator::Divide, out, false);
 });
 
-//# harness binary_single_double tier=quick label=complete props=C12,C06 fn=rusty_linter/src/core/casting.rs::cast_binary_op_q timeout=600
+//# harness binary_single_double tier=quick tier.C06=thorough label=complete props=C12,C06 fn=rusty_linter/src/core/casting.rs::cast_binary_op_q timeout=600
 harness!(binary_single_double, 1, {
     let a = vs::f32();
     vs::assume(a.is_finite());
@@ -1050,7 +1050,7 @@ harness!(binary_single_double, 1, {
     reach!(out == Out::OtherError);
 });
 
-//# harness logical_single_double tier=quick label=complete props=C12,C06 fn=rusty_linter/src/core/casting.rs::cast_binary_op_q timeout=600
+//# harness logical_single_double tier=quick tier.C06=thorough label=complete props=C12,C06 fn=rusty_linter/src/core/casting.rs::cast_binary_op_q timeout=600
 harness!(logical_single_double, 18, {
     let a = vs::f32();
     vs::assume(a.is_finite());
@@ -1076,7 +1076,7 @@ harness!(finding_f5_divide_single_double, 1, {
     check(Q::BangSingle, Q::HashDouble, Operator::Divide, out, false);
 });
 
-//# harness binary_double_integer tier=quick label=complete props=C12,C06 fn=rusty_linter/src/core/casting.rs::cast_binary_op_q timeout=600
+//# harness binary_double_integer tier=quick tier.C06=thorough label=complete props=C12,C06 fn=rusty_linter/src/core/casting.rs::cast_binary_op_q timeout=600
 harness!(binary_double_integer, 1, {
     let a = vs::f64();
     vs::assume(a.is_finite());
@@ -1123,7 +1123,7 @@ harness!(binary_double_integer, 1, {
     reach!(out == Out::OtherError);
 });
 
-//# harness logical_double_integer tier=quick label=complete props=C12,C06 fn=rusty_linter/src/core/casting.rs::cast_binary_op_q timeout=600
+//# harness logical_double_integer tier=quick tier.C06=thorough label=complete props=C12,C06 fn=rusty_linter/src/core/casting.rs::cast_binary_op_q timeout=600
 harness!(logical_double_integer, 18, {
     let a = vs::f64();
     vs::assume(a.is_finite());
@@ -1149,7 +1149,7 @@ harness!(finding_f5_divide_double_integer, 1, {
     check(Q::HashDouble, Q::PercentInteger, Operator::Divide, out, false);
 });
 
-//# harness binary_double_long tier=quick label=complete props=C12,C06 fn=rusty_linter/src/core/casting.rs::cast_binary_op_q timeout=600
+//# harness binary_double_long tier=quick tier.C06=thorough label=complete props=C12,C06 fn=rusty_linter/src/core/casting.rs::cast_binary_op_q timeout=600
 harness!(binary_double_long, 1, {
     let a = vs::f64();
     vs::assume(a.is_finite());
@@ -1196,7 +1196,7 @@ harness!(binary_double_long, 1, {
     reach!(out == Out::OtherError);
 });
 
-//# harness logical_double_long tier=quick label=complete props=C12,C06 fn=rusty_linter/src/core/casting.rs::cast_binary_op_q timeout=600
+//# harness logical_double_long tier=quick tier.C06=thorough label=complete props=C12,C06 fn=rusty_linter/src/core/casting.rs::cast_binary_op_q timeout=600
 harness!(logical_double_long, 18, {
     let a = vs::f64();
     vs::assume(a.is_finite());
@@ -1222,7 +1222,7 @@ harness!(finding_f5_divide_double_long, 1, {
     check(Q::HashDouble, Q::AmpersandLong, Operator::Divide, out, false);
 });
 
-//# harness binary_double_single tier=quick label=complete props=C12,C06 fn=rusty_linter/src/core/casting.rs::cast_binary_op_q timeout=600
+//# harness binary_double_single tier=quick tier.C06=thorough label=complete props=C12,C06 fn=rusty_linter/src/core/casting.rs::cast_binary_op_q timeout=600
 harness!(binary_double_single, 1, {
     let a = vs::f64();
     vs::assume(a.is_finite());
@@ -1270,7 +1270,7 @@ harness!(binary_double_single, 1, {
     reach!(out == Out::OtherError);
 });
 
-//# harness logical_double_single tier=quick label=complete props=C12,C06 fn=rusty_linter/src/core/casting.rs::cast_binary_op_q timeout=600
+//# harness logical_double_single tier=quick tier.C06=thorough label=complete props=C12,C06 fn=rusty_linter/src/core/casting.rs::cast_binary_op_q timeout=600
 harness!(logical_double_single, 18, {
     let a = vs::f64();
     vs::assume(a.is_finite());
@@ -1296,7 +1296,7 @@ harness!(finding_f5_divide_double_single, 1, {
     check(Q::HashDouble, Q::BangSingle, Operator::Divide, out, false);
 });
 
-//# harness binary_double_double tier=quick label=complete props=C12,C06 fn=rusty_linter/src/core/casting.rs::cast_binary_op_q timeout=600
+//# harness binary_double_double tier=quick tier.C06=thorough label=complete props=C12,C06 fn=rusty_linter/src/core/casting.rs::cast_binary_op_q timeout=600
 harness!(binary_double_double, 1, {
     let a = vs::f64();
     vs::assume(a.is_finite());
@@ -1344,7 +1344,7 @@ harness!(binary_double_double, 1, {
     reach!(out == Out::OtherError);
 });
 
-//# harness logical_double_double tier=quick label=complete props=C12,C06 fn=rusty_linter/src/core/casting.rs::cast_binary_op_q timeout=600
+//# harness logical_double_double tier=quick tier.C06=thorough label=complete props=C12,C06 fn=rusty_linter/src/core/casting.rs::cast_binary_op_q timeout=600
 harness!(logical_double_double, 18, {
     let a = vs::f64();
     vs::assume(a.is_finite());
